@@ -79,11 +79,109 @@ def _moveaxis_placement(ctx, ck, move, fn) -> None:
                   f'MoveAxisOperator does not move the axes like numpy.moveaxis for {len(wrong)} of {n} requests, e.g. {wrong[0] if wrong else ""}', instance='moveaxis argument order', semantic=True)
 
 
-def run(ctx, ck) -> None:
+def _ravel_by_evaluation(ctx, ck, ravel) -> bool:
+    """A1/A2/reduce for RavelOperator, decided by following the axes (sa/axinterp.py) for every pair (first, last) in -4..3 on
+    leaves of rank 1-4 and on a pytree of two leaves of different ranks: a legal pair merges exactly the axes first..last of
+    every leaf, in order; a pair whose first axis comes after the last one on some leaf is refused at construction; reduce()
+    gives the identity exactly when no leaf changes.  Returns True when decided."""
+    from ..axinterp import AxArr, Built, Interp, Obj, Raised, StructLeaf, Undecided, UNK, as_structure
+    from ..classes import CORE
+
+    world, table = ctx.world, ctx.table
+    base = table.get(f'{CORE}.AbstractLinearOperator')
+    ident = table.by_name('IdentityOperator')
+    out_fn = base.own.get('out_structure')
+    sizes = (2, 3, 5, 7)
+    problems: list[str] = []
+    undecided: list[str] = []
+    n = 0
+
+    def leaf(rank, tag):
+        return StructLeaf(tuple((frozenset({f'{tag}{j}'}), sizes[j]) for j in range(rank)))
+
+    def expected(lf, f, l):
+        m = lf.ndim
+        fa, la = (f + m if f < 0 else f), (l + m if l < 0 else l)
+        if not (0 <= fa < m and 0 <= la < m) or fa > la:
+            return None
+        if fa == la:
+            return lf
+        names = ['.'.join(sorted(x)) for x, _ in lf.axes[fa:la + 1]]
+        size = 1
+        for _, s_ in lf.axes[fa:la + 1]:
+            size *= s_
+        return AxArr(lf.axes[:fa] + ((frozenset({'*'.join(names)}), size),) + lf.axes[la + 1:])
+
+    trees = [(leaf(r, 'x'),) for r in (1, 2, 3, 4)] + [(leaf(2, 'x'), leaf(3, 'y')), (leaf(1, 'x'), leaf(3, 'y'))]
+    for tree in trees:
+        struct = tree[0] if len(tree) == 1 else list(tree)
+        for f in range(-4, 4):
+            for l in range(-4, 4):
+                wants = [expected(lf, f, l) for lf in tree]
+                in_range = all(-lf.ndim <= f < lf.ndim and -lf.ndim <= l < lf.ndim for lf in tree)
+                if not in_range:
+                    continue  # axes outside the rank of a leaf: out of the clauses decided here
+                legal = all(w is not None for w in wants)
+                n += 1
+                it = Interp(world, table, budget=50_000)
+                it.constructible = {ident.qual}
+                it.watch_constructors = set()
+                if isinstance(out_fn, ast.FunctionDef):
+                    # out_structure is the abstract evaluation of mv on the input structure
+                    it.summaries[id(out_fn)] = lambda args, kwargs, it=it: as_structure(it.call_method(args[0], 'mv', it.call_method(args[0], 'in_structure')))
+                what = f'RavelOperator({f}, {l}) on leaves of rank {[lf.ndim for lf in tree]}'
+                try:
+                    op = it.construct(ravel, f, l, in_structure=struct)
+                except Raised:
+                    if legal:
+                        problems.append(f'{what}: a legal pair of axes is refused at construction')
+                    continue
+                except Undecided as exc:
+                    undecided.append(f'{what}: {exc}')
+                    continue
+                if not legal:
+                    if not it.degraded:
+                        problems.append(f'{what}: the first axis comes after the last one on some leaf, yet the operator is built (it only fails when applied)')
+                    continue
+                try:
+                    res = it.call_method(op, 'mv', struct)
+                    red = it.call_method(op, 'reduce')
+                except Raised as exc:
+                    problems.append(f'{what}: mv / reduce raises {exc.name}')
+                    continue
+                except Undecided as exc:
+                    undecided.append(f'{what}: {exc}')
+                    continue
+                got = [res] if isinstance(res, AxArr) else list(res) if isinstance(res, (list, tuple)) else None
+                if got is None or not all(isinstance(g, AxArr) for g in got) or it.degraded:
+                    undecided.append(f'{what}: the result of mv cannot be followed ({it.degraded[:1]})')
+                    continue
+                if [g.axes for g in got] != [w.axes for w in wants]:
+                    problems.append(f'{what}: mv gives {got!r}, the axes {f}..{l} merged in order give {wants!r}')
+                unchanged = all(w.axes == lf.axes for w, lf in zip(wants, tree))
+                is_identity = isinstance(red, Obj) and red.cls is ident
+                if red is UNK or not isinstance(red, Obj):
+                    undecided.append(f'{what}: the result of reduce() cannot be followed')
+                elif is_identity != unchanged:
+                    problems.append(f'{what}: reduce() returns {"the identity although a leaf is reshaped" if is_identity else "the operator although no leaf changes"}')
+        if len(undecided) > 3:
+            break
+    target = table.resolve(ravel, 'mv').node
+    if undecided:
+        ck.incomplete('A1', target, f'RavelOperator could not be followed for {len(undecided)} of {n} cases, e.g. {undecided[0]}', instance='ravel by evaluation')
+        return False
+    ck.expect('A1', not problems, target, f'for all {n} pairs (first, last) and leaf ranks 1-4 (and pytrees of two ranks): the axes first..last are merged in order, a first axis after the last one is refused at construction, reduce() is the identity exactly when no leaf changes',
+              f'{problems[0] if problems else ""} ({len(problems)} of {n} cases)', instance='ravel by evaluation', semantic=True)
+    return True
+
+
+def _run(ctx, ck) -> bool:
     world, table = ctx.world, ctx.table
     kinds = all_mv(ctx)
     g = table.by_name
     move, ravel, reshape, rt = g('MoveAxisOperator'), g('RavelOperator'), g('ReshapeOperator'), g('ReshapeTransposeOperator')
+    ravel_decided = _ravel_by_evaluation(ctx, ck, ravel)
+    ctx.cache['c13_ravel_decided'] = ravel_decided
     # ------------------------------------------------------------------ A1
     for cls in (move, ravel, reshape, rt):
         s = kinds.get(cls.qual)
@@ -272,11 +370,14 @@ def run(ctx, ck) -> None:
     # (whether the fields are stored before or after the refusals does not matter: a constructor that raises yields no object)
     ck.expect('A2', bool(raises), init, 'the refusals are raised by the constructor', 'the constructor no longer refuses anything', instance='ravel guards first', nontrivial=False)
 
-    rinit = reshape.own.get('__init__')
-    chk = reshape.own.get('_check_shape')
-    norm = reshape.own.get('_normalize_shape')
+    def _resolved(name):
+        r_ = table.resolve(reshape, name)
+        return r_.node if r_ is not None else None
+
+    rinit, chk, norm = _resolved('__init__'), _resolved('_check_shape'), _resolved('_normalize_shape')
     if not all(isinstance(x, ast.FunctionDef) for x in (rinit, chk, norm)):
-        raise AnalysisError('anchor vanished: ReshapeOperator.__init__/_check_shape/_normalize_shape')
+        ck.incomplete('A2', reshape.node, 'ReshapeOperator no longer validates its target shape through __init__ / _check_shape / _normalize_shape: the reshape clauses are not decided', instance='reshape validation')
+        return
     order = [ast.unparse(st) for st in rinit.body]
     i_chk = next((i for i, s in enumerate(order) if '_check_shape(' in s), None)
     i_store = next((i for i, (s, st) in enumerate(zip(order, rinit.body)) if (isinstance(st, ast.Assign) and s.startswith('self.')) or 'super().__init__' in s), None)
@@ -339,6 +440,20 @@ def run(ctx, ck) -> None:
         o.rule = f'{ck.pid}.A4'
         ck.obs.append(o)
     ck.floor('A4', sum(1 for o in ck.obs if o.rule.endswith('A4')), 4, 'no-op and pair-rule obligations')
+
+
+def run(ctx, ck) -> None:
+    _run(ctx, ck)
+    if ctx.cache.get('c13_ravel_decided'):
+        # where the evaluation decided RavelOperator (axes merged, refusals, reduce), the clauses on its written form are kept only when they agree
+        kept = []
+        for o in ck.obs:
+            structural = ('ravel merged axes' in o.construct) or ('AbstractRavelOrReshapeOperator.reduce' in o.construct and 'no-op guard' in o.construct)
+            if structural and o.status != 'ok':
+                ck.note(f'{o.rule} [{o.construct}] not decided structurally ({o.status}: {o.how[:100]}); superseded by the evaluation of RavelOperator')
+                continue
+            kept.append(o)
+        ck.obs[:] = kept
 
 
 def controls(world: World) -> list[Control]:
